@@ -68,6 +68,15 @@ CHECKS.update({
    ref="3 C19"),
 })
 
+CHECKS.update({
+ "C16": dict(level="exploration", tech="round-trip monitoring of the real InvocationData / mrg conversions with an independent AST walker, plus recompilation of recorded per-fork _invocation files", note=SRC_NOTE,
+   text="Random callable signatures and JSON argument values of every type (nulls, boundary integers, exponent floats, every string escape, non-ASCII, hostile keys) with any subset split: JSON -> BuildCallSource -> compile -> InvocationDataFromSource/BuildDataForAst must return equal args and split set, MRO -> JSON -> MRO must compile to an equal call, the mrg binary must agree with the API, and every <stage>/<fork>/_invocation of finished pipestances must compile as a call of that stage whose arguments equal the fork's _args.",
+   ref="3 C16"),
+ "C18": dict(level="exploration", tech="real dash/bash evaluating the real quoting / job-script output, with a recorder process reporting what arrived and canary files detecting injection", note="Trusted base: /bin/sh (dash) and bash as the POSIX shells, the recorder subcommand of the harness binary; the quoting and script assembly under observation are the real core functions reached through the -tags verif wrappers and the real mrp in fake_remote mode.",
+   text="All 1- and 2-character combinations of shell-special characters in carriers, every ASCII byte, injection payloads, random Unicode, long and multi-line strings (invalid UTF-8 as a separately signed extension class) are quoted by the real appendShellSafeQuote and printed by dash and bash; real jobScript output for every template is evaluated with hostile program paths, arguments, environment values, stdout/stderr paths and working directories and the recorder's argv/env/cwd must equal the originals; real mrp runs in fake_remote mode with hostile --psdir / install paths.",
+   ref="3 C18"),
+})
+
 props = [json.loads(l) for l in open('/verif/properties.jsonl')]
 hooks = subprocess.run(['git', '-C', '/repo', 'log', '--format=%h %s', 'e7a547a..HEAD'], capture_output=True, text=True).stdout.strip().split('\n')
 hook_commits = [h.split()[0] for h in hooks if 'verif hooks' in h]
@@ -90,7 +99,7 @@ for p in props:
             "technique": c['tech'],
         })
     else:
-        na.append({"property_id": pid, "reason": "check not built yet (work in progress; see DESIGN.md section 3)"})
+        na.append({"property_id": pid, "reason": "no check registered"})
 
 m = {
  "version": 1,
